@@ -187,10 +187,7 @@ func (sc *Scenario) catsWithUUID(u string) []CatDef {
 func (sc *Scenario) exitDest(exitUUID string) (string, bool) {
 	for _, e := range sc.Exits {
 		if e.UUID == exitUUID {
-			if e.Dest >= 0 {
-				return nodeD(e.Dest), true
-			}
-			return "", true
+			return sc.destUUID(e.Dest), true
 		}
 	}
 	return "", false
